@@ -4,7 +4,7 @@ from . import common
 
 SPEC_THEOREM = 'Props/C05: accessor_m (enc v) = lift enc (accessor_t v) (tree answer), results canonical'
 TRUSTED = ['Coq 8.16.1 kernel', 'translator (tags, masks, is_jsonb set)', 'extraction + OCaml driver', 'Rust harness',
-           'hand-written model: tree operations TreeOps.v; byte walkers tied by correspondence (view-level) and, for the walkers in Walk.v, by refinement proofs']
+           'hand-written model: tree operations TreeOps.v; byte walkers tied by correspondence (view-level) and, for the walkers in Walk.v and CastWalk.v, by refinement proofs']
 ASSUMPTIONS = ['documents are canonical encodings of well-formed values with top-level count < 2^24',
                'str::to_lowercase agrees with ASCII lower-casing on the words true/false; std integer/float grammars are modelled (parse_int_std, parse_float_std)']
 RULE = 'every accessor x (all indices -len-2..len+2; every key of the document, case variants, proper prefixes, empty, multi-byte; key paths 0..depth+1 from the structure plus perturbations); non-trivial = result is not none/false/error'
@@ -16,6 +16,25 @@ CAST_STRINGS = [b'true', b'TRUE', b'False', b'fAlSe', b'truex', b'1', b'-1', b'+
                 b'9223372036854775808', b'-9223372036854775808', b'-9223372036854775809', b'18446744073709551615',
                 b'18446744073709551616', b'1.5', b'1e3', b'.5', b'5.', b'-0', b'+', b'-', b'', b' 1', b'1 ', b'inf', b'-Infinity',
                 b'nan', b'NaN', b'1e400', b'1e-400', b'0x10', b'1_0', b'1e', b'1e+', b'e5', b'.', b'12abc', b'\xef\xbc\x91']
+
+
+CAST_OPS = [op for op in SCALAR_OPS if op not in ('array_length', 'object_keys', 'object_each', 'array_values')]
+
+
+def strs_of(v):
+    return [x[1] for x in gen.subvalues(v) if x[0] == 's'] + common.keys_of(v)
+
+
+def string_payload_is_utf8(m):
+    """m[8 : 8 + (entry word & 0x0fffffff)] (cut at the end of the buffer) decodes as UTF-8, or there is no entry word"""
+    if len(m) < 8:
+        return True
+    ln = int.from_bytes(m[4:8], 'big') & 0x0fffffff
+    try:
+        m[8:8 + ln].decode('utf-8')
+        return True
+    except UnicodeDecodeError:
+        return False
 
 
 def py_get_by_index(v, i):
@@ -78,6 +97,58 @@ def generate(ctx):
             for op in ('object_keys', 'object_each', 'array_values'):
                 if r.random() < 0.5:
                     ctx.add('%s %s' % (op, h), kind='malformed')
+            # the header/entry/payload readers (CastWalk.v): every scalar accessor and cast, and the container walk of
+            # traverse_check_string.  to_bool lower-cases the from_utf8_unchecked text, so it only gets buffers whose
+            # would-be string payload is valid UTF-8 (anything else is undefined behaviour in the code, not a result).
+            for op in CAST_OPS:
+                if op == 'to_bool' and not string_payload_is_utf8(m):
+                    continue
+                if r.random() < 0.6:
+                    ctx.add('%s %s' % (op, h), kind='malformed')
+            for needle in (b'', r.choice(strs_of(v) + [b'zzz'])[:2]):
+                ctx.add('traverse_check_string %s %s' % (h, gen.hexarg(needle)), kind='malformed')
+    # the same readers on scalar documents (where the entry word and the payload slice matter): every prefix, every byte
+    # of the header and entry words replaced, payload bytes replaced (number payloads that Number::decode rejects,
+    # lengths that run past the end), and a few bytes appended
+    scalars = [v for v in ds if v[0] not in 'ao' and len(gen.enc(v)) <= 60]
+    fixed = [('n',), ('b', True), ('b', False), ('s', b''), ('s', b'true'), ('s', b'-12'), ('u', 0), ('i', -129), ('d', gen.float_to_bits(1.5))]
+    for v in fixed + r.sample(scalars, min(len(scalars), ctx.scale(90, 2000))):
+        e = gen.enc(v)
+        muts = [e[:i] for i in range(len(e))] + [e + b'\x00', e + b'ab']
+        for i in range(min(len(e), 8)):
+            for b in r.sample([0, 1, 2, 5, 0x10, 0x20, 0x30, 0x40, 0x50, 0x60, 0x70, 0x80, 0xa0, 0xff, e[i] ^ 1, e[i] ^ 0x10], 4):
+                muts.append(e[:i] + bytes([b]) + e[i + 1:])
+        for _ in range(4 if len(e) > 8 else 0):
+            i = r.randrange(8, len(e))
+            muts.append(e[:i] + bytes([r.choice([0, 0x10, 0x20, 0x30, 0x40, 0x50, 0x60, 0x61, 0x7f, 0x80, 0xff, e[i] ^ 1])]) + e[i + 1:])
+        for m in muts:
+            h = gen.hexarg(m)
+            for op in CAST_OPS:
+                if op == 'to_bool' and not string_payload_is_utf8(m):
+                    continue
+                if r.random() < 0.5:
+                    ctx.add('%s %s' % (op, h), kind='malformed')
+            if r.random() < 0.3:
+                ctx.add('traverse_check_string %s %s' % (h, gen.hexarg(r.choice([b'', b'a', e[8:10]]))), kind='malformed')
+    # the order in which traverse_check_string visits containers (a queue: level by level), seen through what happens
+    # first: a string that matches in a shallow right sibling against an out-of-bounds string / an unknown header kind /
+    # a short read deeper down on the left; and zero-length container entries that all point at the same offset
+    S = lambda b: ('s', b)
+    A = lambda *xs: ('a', list(xs))
+    for doc in (A(A(A(S(b'x'))), A(S(b'a'))), A(A(A(S(b'x')), S(b'q')), ('o', [(b'a', S(b'y'))])),
+                ('o', [(b'k', A(A(A(S(b'x'))))), (b'l', A(A(S(b'a'))))])):
+        e = gen.enc(doc)
+        i = e.index(bytes.fromhex('10000001') + b'x') if bytes.fromhex('10000001') + b'x' in e else e.index(bytes.fromhex('10000001'))
+        j = e.rindex(bytes.fromhex('80000001'), 0, i)
+        for m in (e[:i] + bytes.fromhex('100000ff') + e[i + 4:], e[:j] + bytes.fromhex('a0000001') + e[j + 4:],
+                  e[:j] + bytes.fromhex('9fffffff') + e[j + 4:], e[:i] + bytes.fromhex('50000000') + e[i + 4:]):
+            for needle in (b'a', b'x', b'q', b'y', b'zz', b''):
+                ctx.add('traverse_check_string %s %s' % (gen.hexarg(m), gen.hexarg(needle)), kind='malformed')
+    for k, d, tail in ((3, 4, b''), (4, 3, b''), (2, 6, bytes.fromhex('a0000000')), (3, 3, bytes.fromhex('8000000110000001') + b'a'),
+                       (3, 3, bytes.fromhex('8000000110000002') + b'a')):
+        m = b''.join((0x80000000 | k).to_bytes(4, 'big') + bytes.fromhex('50000000') * k for _ in range(d)) + tail
+        for needle in (b'a', b''):
+            ctx.add('traverse_check_string %s %s' % (gen.hexarg(m), gen.hexarg(needle)), kind='malformed')
 
 
 def judge(ctx):
